@@ -12,15 +12,16 @@ from . import rules_type as ty
 
 PROPERTIES = {
     'C08': {
-        'rules': [safe.rule_inv_arith, safe.rule_inv_panic, safe.rule_inv_unsafe, safe.rule_ptr_guarded_call, safe.rule_auth_node_free, safe.rule_deque_shape,
+        'rules': [safe.rule_inv_arith, safe.rule_inv_panic, safe.rule_inv_unsafe, safe.rule_ptr_guarded_call, safe.rule_auth_node_free, safe.rule_deque_shape, safe.rule_deque_links,
                   stale.rule_stale_removal, stale.rule_admit_live, must.rule_wo_node, must.rule_unlink_both, fx.rule_sketch_structure, adm.rule_cmp_evict, flow.rule_flow_sync, ty.rule_type_witnesses, adm.rule_must_recency],
         'explanation': 'Discipline, not absence of every bad state: complete inventories of arithmetic asserts, panic-capable calls and unsafe code, each '
                        'discharged automatically or by one reasoned table line; unsafe impl bounds; every unsafe list operation is membership-'
                        'guarded; nodes are freed only by their owner roles, never popped in the concurrent cache; maintenance removes by identity '
-                       'only and never creates ghost nodes; local shape invariants of the list operations; type-level witnesses with error codes.',
+                       'only and never creates ghost nodes; local shape invariants of the list operations and the inductive step of list well-formedness '
+                       '(every path of push / unlink / pop / move-to-back leaves exactly the links of a well-formed list); type-level witnesses with error codes.',
         'decides': 'no unreviewed overflow / panic / unsafe site; list operations guarded; frees only through owner roles; identity-guarded removal; '
                    'type-level exclusion of data races and aliasing',
-        'does_not_decide': 'well-formedness of the intrusive list for all operation sequences (pointer algebra), anything a sanitizer would see at run time; '
+        'does_not_decide': 'that the inductive hypotheses of DEQUE-links (list well formed before the call, node argument a member of THIS list) hold at every call site beyond what PTR-guarded-call / AUTH-node-free establish; anything a sanitizer would see at run time; '
                            'table lines of class ASSUMPTION are listed, not proved',
     },
     'C13': {
@@ -33,12 +34,12 @@ PROPERTIES = {
         'does_not_decide': 'the estimates themselves (C14 numerics), the deque order (C12)',
     },
     'C12': {
-        'rules': [adm.rule_must_recency, fx.rule_pair_readop_once, adm.rule_cmp_admit, adm.rule_cmp_evict, adm.rule_flow_admit_sums, flow.rule_flow_sync, live.rule_lookup_surface],
+        'rules': [adm.rule_must_recency, fx.rule_pair_readop_once, adm.rule_cmp_admit, adm.rule_cmp_evict, adm.rule_flow_admit_sums, flow.rule_flow_sync, live.rule_lookup_surface, safe.rule_deque_links],
         'explanation': 'Recency bookkeeping is invoked on every use (get hit, update, admission push-back); victim selection starts at the '
                        'front of probation and advances by next only; the scan and the eviction loops stop as early as allowed '
                        '(victims.weight < candidate.weight, evicted >= weights_to_evict) and remove what peek_front returned.',
         'decides': 'every use refreshes recency; selection consumes the list from its LRU end and stops as early as allowed',
-        'does_not_decide': 'that Deque really implements the order (its pointer algebra); order among skipped / stale nodes in sync',
+        'does_not_decide': 'the order for whole operation sequences (DEQUE-links decides one step: push and move-to-back put the node at the back, unlink / pop join the neighbours); order among skipped / stale nodes in sync',
     },
     'C04': {
         'rules': [adm.rule_admission_outcomes, adm.rule_flow_admit_sums, adm.rule_cmp_evict, cfg.rule_store_capacity, cfg.rule_weigh_exact, conc.rule_const_logsizes, conc.rule_loop_retry, flow.rule_flow_unsync, flow.rule_flow_sync, stale.rule_must_drain, stale.rule_explicit_sync, must.rule_must_expire],
